@@ -304,6 +304,8 @@ def run(ctx):
               'an end-of-stream message can be appended as a result', where=loc(run_f, run_f.node))
 
     check_frame(ctx, pool, cl)
+    from .c09 import check_reinit
+    check_reinit(ctx, pool, 'R5')
     check_enqueue_callers(ctx, pool, run_f, cl)
     check_redistribution(ctx, cl, 'R1')
 
@@ -441,6 +443,21 @@ MUTATORS = ('append', 'extend', 'insert', 'pop', 'clear', 'add', 'remove', 'disc
 
 def check_frame(ctx, pool, cl):
     n = 0
+    # methods of Pool whose only call sites are top-level statements of Pool.run (before the closures are defined): part of run's prologue
+    run_f = pool.methods['run']
+    callers = {}
+    for f in ctx.prog.funcs.values():
+        for c in calls_in(f.node):
+            if receiver(c) == 'self' and last_attr(c) in pool.methods:
+                callers.setdefault(last_attr(c), set()).add(f.qualname)
+    tries = [st for st in run_f.node.body if isinstance(st, ast.Try)]
+    prologue = []
+    for st in (tries[0].body if tries else run_f.node.body):
+        if isinstance(st, ast.FunctionDef):
+            break
+        prologue.append(st)
+    called_in_prologue = {last_attr(st.value) for st in prologue if isinstance(st, ast.Expr) and isinstance(st.value, ast.Call) and receiver(st.value) == 'self'}
+    run_helpers = {m for m in called_in_prologue if callers.get(m) == {run_f.qualname}}
     for f in ctx.prog.funcs.values():
         owner = f.cls
         q = f.parent
@@ -476,6 +493,8 @@ def check_frame(ctx, pool, cl):
                     hits.append((base.attr, last_attr(node)))
             in_run = f.parent is not None and f.parent.name == 'run'
             fname = cl.role_of(f.name) if in_run else f.name
+            if fname not in ('run', '__init__') and not in_run and f.name in run_helpers:
+                fname = 'run'      # a reset helper called only from the prologue of run plays the role of run
             fshort = f'Pool.run.<{fname}>' if in_run else f.short
             for attr, kind in hits:
                 n += 1
